@@ -213,6 +213,27 @@ def run_zst_case(case):
     return res
 
 
+def _zst_year_end_transitions(zones):
+    import logging
+    logging.disable(logging.CRITICAL)
+    from zonedb.zone_specifier import ZoneSpecifier
+    from zonedbpy import zone_infos
+    out = []
+    for z in zones:
+        zs = ZoneSpecifier(zone_infos.ZONE_INFO_MAP[z])
+        for y in range(2000, 2037):
+            try:
+                zs.init_for_year(y)
+            except BaseException:
+                continue
+            for tr in zs.transitions:
+                for dtp in (tr.startDateTime, tr.transitionTime):
+                    if (dtp.M == 12 and dtp.d >= 30 and dtp.y == y) or (dtp.M == 1 and dtp.d <= 2 and dtp.y == y + 1):
+                        if (z, y) not in out:
+                            out.append((z, y))
+    return out
+
+
 def construct_cases(lib, rnd, n):
     """cases built from the library's own table: a transition close to the end of a year becomes the last thing in range"""
     out = []
@@ -314,6 +335,10 @@ def run(ctx):
     zst_zones = sorted(z for z in _zi.ZONE_INFO_MAP if z in pytz.all_timezones_set)
     zsel = zst_zones if thorough else rnd.sample(zst_zones, 40)
     zcases = [dict(lib="zst", zone=z, start=2000 + (i % 5), until=2038 if thorough else 2012 + (i % 20)) for i, z in enumerate(zsel)]
+    # constructed: zones whose ZoneSpecifier has a transition within two days of a New Year -> ranges ending / starting there
+    for z, y in [p for part in vt.pmap(_zst_year_end_transitions, [zst_zones[i::16] for i in range(16)]) for p in part]:
+        zcases.append(dict(lib="zst", zone=z, start=max(2000, y - 3), until=y + 1, constructed=True))
+        zcases.append(dict(lib="zst", zone=z, start=y + 1, until=min(2038, y + 4), constructed=True))
     for res in vt.pmap(run_zst_case, zcases):
         c = res["case"]
         ctx.evaluations += res["n_items"]
